@@ -214,6 +214,33 @@ class Extractor:
         rules = self.rules_for(opts)
         item, fired = rewrites.apply(item, rules)
         line = text.count('\n', 0, s) + 1
+        # R1c: carry over #[derive(..)] restricted to traits Verus understands; derived
+        # PartialEq+Eq is structural equality, which Verus needs spelled as `Structural`.
+        flags = set(pos[3:])
+        pre = text[:s].rstrip()
+        derives = []
+        while pre.endswith(']'):
+            a = pre.rfind('#[')
+            attr = pre[a:]
+            md = re.match(r'#\[derive\((.*)\)\]$', attr, re.S)
+            if md:
+                derives = [d.strip() for d in md.group(1).split(',') if d.strip()] + derives
+            pre = pre[:a].rstrip()
+            # skip doc comments between attributes
+            while True:
+                last_nl = pre.rfind('\n')
+                last_line = pre[last_nl + 1:].strip()
+                if last_line.startswith('//'):
+                    pre = pre[:last_nl].rstrip() if last_nl >= 0 else ''
+                else:
+                    break
+        keep = [d for d in derives if d in ('Clone', 'Copy', 'Debug', 'Eq', 'PartialEq')]
+        if 'noderive' in flags:
+            keep = []
+        if 'PartialEq' in keep and 'Eq' in keep and 'nostructural' not in flags:
+            keep.append('Structural')
+        if keep:
+            self.out.add('#[derive(%s)]\n' % ', '.join(keep), 'src', file, line)
         self.out.add(item + '\n', 'src', file, line)
         self.items.append({'file': file, 'kind': kind, 'name': name, 'line': line,
                            'rules_fired': fired})
